@@ -518,6 +518,9 @@ def get_matching_region_pragmas(pragmas):
         if not start.keyword.lower() == p.keyword.lower():
             return False
         idx = ptok.index('end')
+        if idx + 1 >= len(ptok) or idx >= len(stok):
+            # No marker after 'end' or no corresponding token in the start pragma: no match
+            return False
         return ptok[idx+1] == stok[idx]
 
     matches = []
